@@ -81,6 +81,10 @@ impl Function {
     }
 
     pub(crate) fn exec(&self, interpreter: &mut Interpreter) -> Result<Variable, ExecError> {
+        #[cfg(feature = "verif")]
+        if !crate::verif::take_bypass() {
+            return crate::verif::observed_function_exec(self, interpreter);
+        }
         let body = match &self.body {
             Body::Lang(body) => body,
             Body::Native(body) => return (body)(interpreter),
